@@ -604,10 +604,12 @@ class Session(AbstractSession):
 
         src_index = target.indices[:]
         src_values = target.values[:]
-        dest_index = np.zeros(src_chunksize, src_index.dtype)
+        # the first batch keeps the leading 0 in dest_index[0], so the buffer needs one slot more than
+        # the number of spans handled per batch (otherwise src_chunksize=1 writes past its end)
+        dest_index = np.zeros(src_chunksize + 1, src_index.dtype)
         dest_values = np.zeros(dest_chunksize * chunksize_mult, src_values.dtype)
 
-        max_index_i = src_chunksize
+        max_index_i = src_chunksize + 1
         max_value_i = dest_chunksize * chunksize_mult // 2
 
         if src_values.dtype == 'S1':
